@@ -14,10 +14,10 @@ from verif.reglang.alphabet import alphabet
 
 PROPERTY = "C13"
 LEVEL = "other"
-LEVEL_TEXT = "for the schema-independent kinds the inclusion 'generated ⊆ read as the right token' is decided for ALL derivations: the fragment the real compiler returns for TYPE[NUMBER], TYPE[BOOLEAN], DATE and ISO8601 is parsed by the reference GBNF reader, turned into an automaton, and (after the field rule's separator language) shown to fire exactly one NUMBER / BOOLEAN / STRING token in the step model of the real tokenize (R1-R3); acceptance of the token's value is then a regular inclusion against the constraint's acceptance language for DATE/ISO8601 (calendar and clock ranges written from datetime.fromisoformat; R4) and type facts proved in C08 for NUMBER/BOOLEAN; the selection rule of compile_chain is read from the AST (F1); CONST/ENUM literals are emit_value spellings (F2), so C04's round trip and C08's exact-match clauses give acceptance (lemma by reference, not re-proved). Per-schema behaviour (CONST/ENUM pools, chains with REQ/OPT, all routes) is bounded: exhaustive derivation for finite rules, boundary sampling filtered by grammar membership for the infinite ones"
+LEVEL_TEXT = "for the schema-independent kinds the inclusion 'generated ⊆ read as the right token' is decided for ALL derivations: the fragment the real compiler returns for TYPE[NUMBER], TYPE[BOOLEAN], DATE and ISO8601 is parsed by the reference GBNF reader, turned into an automaton, and (after the field rule's separator language) shown to fire exactly one NUMBER / BOOLEAN / STRING token in the step model of the real tokenize (R1-R3); acceptance of the token's value is then a regular inclusion against the constraint's acceptance language for DATE/ISO8601 (calendar and clock ranges written from datetime.fromisoformat; R4) and type facts proved in C08 for NUMBER/BOOLEAN; the selection rule of compile_chain is a discharged contract over chains of 1-3 members whose kinds are symbolic (P2); CONST/ENUM literals are emit_value spellings (F2), so C04's round trip and C08's exact-match clauses give acceptance (lemma by reference, not re-proved). Per-schema behaviour (CONST/ENUM pools, chains with REQ/OPT, all routes) is bounded: exhaustive derivation for finite rules, boundary sampling filtered by grammar membership for the infinite ones"
 LEVEL_NOTE = "unbounded for the four schema-independent kinds up to the conversion step (int() digit limit is a separate, refuted, obligation); CONST/ENUM rest on C04 (bare/quoted scalar round trip, with its known findings) and C08 member contracts; chains, names and routes are bounded"
-TECHNIQUE = "regular-language inclusion between the language of the real compiled fragment (reference GBNF reader -> automaton) and the real tokenizer's step model / the constraint's acceptance language; AST-shape contract for compile_chain's priority rule; bounded derivation sweep through the real reader and ConstraintChain.evaluate"
-EXPLANATION = "C13: R1 NUMBER, R2 BOOLEAN, R3 DATE/ISO8601 token inclusion, R4 DATE/ISO8601 acceptance inclusion, R5 conversion totality, F1 chain selection, F2 literal spelling, B1 derivations of schema pools through reader + chain."
+TECHNIQUE = "regular-language inclusion between the language of the real compiled fragment (reference GBNF reader -> automaton) and the real tokenizer's step model / the constraint's acceptance language; pre/postcondition on compile_chain with symbolic member kinds (z3); bounded derivation sweep through the real reader and ConstraintChain.evaluate"
+EXPLANATION = "C13: R1 NUMBER, R2 BOOLEAN, R3 DATE/ISO8601 token inclusion, R4 DATE/ISO8601 acceptance inclusion, R5 conversion totality, P2 chain selection (symbolic kinds), F2 literal spelling, B1 derivations of schema pools through reader + chain."
 ASSUMPTIONS = [
     "reference GBNF semantics (verif/gbnf.py) for what a rule derives",
     "tokenizer step model of verif.reglang.tokmodel (skeleton-checked against the AST, differentially tested)",
@@ -342,9 +342,15 @@ def obligations(ctx: Ctx):
         Ob(f"{P}.R4.DATE", "R", "every text the DATE rule derives is a date the DATE constraint accepts", FUNCS, partial(ob_date_accept, kind="DATE")),
         Ob(f"{P}.R4.ISO8601", "R", "every text the ISO8601 rule derives is accepted by the ISO8601 constraint", FUNCS, partial(ob_date_accept, kind="ISO8601")),
         Ob(f"{P}.R5", "R", "number conversion is total on the NUMBER derivations (no length limit hit)", FUNCS, ob_number_conversion),
-        Ob(f"{P}.F1", "F", "compile_chain picks CONST > ENUM > REGEX > TYPE > DATE/ISO8601 > first member", [f"{GB}:GBNFCompiler.compile_chain"], ob_chain_selection),
         Ob(f"{P}.F2", "F", "CONST / ENUM literals are the canonical emitter's spelling of the value", [f"{GB}:GBNFCompiler._compile_const", f"{GB}:GBNFCompiler._compile_enum"], ob_literal_spelling),
     ]
+    # compile_chain under a contract with SYMBOLIC member kinds (any of the 13 constraint classes at every position):
+    # the fragment returned is compile_constraint(<first CONST, else first ENUM, else REGEX, TYPE, DATE/ISO8601, else member 0>)
+    from contracts import gbnf as GC
+    from verif.pyvc.adapter import contract_ob as _cob
+
+    for n in (1, 2, 3):
+        obs.append(_cob(f"{P}.P2.n{n}", f"compile_chain on chains of {n} member(s) of arbitrary kinds: the most specific member's fragment is returned", (lambda n=n: GC.chain_selection_contract(n)), f"contracts.gbnf:chain_selection_contract({n})"))
     # the acceptance half of the CONST / ENUM / TYPE argument: the members' own contracts (shared with C08)
     from contracts import constraints as CC
     from verif.pyvc.adapter import contract_ob
